@@ -20,6 +20,9 @@ Implementation side (supporting evidence and the failing-input search; tolerance
            (non-merging) written in coordinate units (0.7, 0.35, 1.3 ...), unbatched (shift-merge) and batched (shift-prune),
            >= 2 shifts with generic-phase pulses in between: norm == ensemble RMS, F0 == ensemble mean after every operator,
            and equality (norm, F0, every phase state) with the equivalent integer-shift run (1-d and n-d integer paths)
+  inplace  chains of op(sm, inplace=True) directly on a freshly built StateMatrix / right after PD (scalar and batched density):
+           equilibrium array untouched, E / SPOILER contract the deviation from (0,0,PD) (0 stays 0), norm and F0 == ensemble,
+           closed forms of T,E, equality with the out-of-place run after every step
   PD(p, reset=True/False) and RESET are placed MID-sequence (after shifts) in the signal, rms, ndcap, bfloat, ndbatch streams;
            bounds are taken w.r.t. the current density, and the state after PD(reset=True) / RESET must BE the equilibrium
   info     with T2 > 2 T1 the bound can fail (recorded in the evidence, not a violation)
@@ -759,8 +762,93 @@ def check_nd(case):
     return None
 
 
+# ------------------------------------------------------------------ in-place application chains on fresh state matrices
+def gen_inplace(rng):
+    """operators applied IN PLACE (op(sm, inplace=True), what simulate() does) directly on a freshly built StateMatrix, or right
+    after PD (scalar / batched density): relaxation first (equilibrium is a fixed point), pulse + relaxation (closed forms), shifts"""
+    start = rng.choice(["fresh", "fresh", "pd", "pd", "pd_inplace"])
+    pd = float(rng.choice([0.5, 1, 1.5, 2]))
+    if rng.random() < 0.6 or start != "fresh":
+        if rng.random() < 0.75:
+            pd = [round(rng.uniform(0.5, 2.0), 3) for _ in range(rng.choice([2, 3]))]
+    def relax():
+        T1 = r(rng, 80, 1500)
+        return ["E", r(rng, 5, 80), T1, r(rng, 10, 2 * T1), r(rng, -0.05, 0.05, 4)]
+    ops = []
+    lead = rng.choice(["E", "E", "TE", "TE", "any"])
+    if lead == "E":
+        ops.append(relax())
+    elif lead == "TE":
+        ops += [["T", r(rng, 5, 175), r(rng, -180, 180)], relax()]
+    for _ in range(rng.randint(0, 4)):
+        k = rng.choice(["T", "T", "E", "E", "P", "S", "SPOIL"])
+        ops.append({"T": lambda: ["T", r(rng, 5, 175), r(rng, -180, 180)], "E": relax, "P": lambda: ["P", r(rng, 0.5, 20), r(rng, -0.1, 0.1, 4)],
+                    "S": lambda: ["Sint", rng.choice([1, 1, 2, -1])], "SPOIL": lambda: ["SPOIL"]}[k]())
+    return {"kind": "inplace", "start": start, "pd": pd, "ops": ops, "opk": "%s%s:%s" % (start, "_b" if isinstance(pd, list) else "", lead)}
+
+
+def check_inplace(case):
+    import epgpy as epg
+
+    def start():
+        pd = case["pd"]
+        if case["start"] == "fresh":
+            return epg.StateMatrix(density=pd)
+        if case["start"] == "pd":
+            return epg.PD(pd)(epg.StateMatrix())
+        return epg.PD(pd)(epg.StateMatrix(), inplace=True)
+    pds = np.atleast_1d(np.asarray(case["pd"], float))
+    B = len(pds)
+    ops = case["ops"]
+    ens = [ensemble_nd(ops, float(p), 1, steps=True) for p in pds]
+    sm, ref = start(), start()
+
+    def dev(m):      # deviation from the INTENDED equilibrium (0, 0, pd) in the zero state, not from the stored array
+        st = np.array(m.states, complex)
+        st = np.broadcast_to(st, (B,) + st.shape[-2:]).copy()
+        st[:, m.nstate, 2] -= pds
+        return phys_norm(st)
+    d_prev = dev(sm)
+    if not close(d_prev, 0):
+        return "freshly built state matrix (%s, density %s) is not at equilibrium: deviation %s" % (case["start"], case["pd"], d_prev.tolist())
+    for i, o in enumerate(ops):
+        op = nd_build_op(o)
+        sm = op(sm, inplace=True)
+        ref = op(ref)                      # out-of-place (copying) run of the same operators
+        where = "after step %d of the in-place chain %s on %s (density %s)" % (i, ops[:i + 1], {"fresh": "StateMatrix(density=..)", "pd": "PD(..)(StateMatrix())", "pd_inplace": "PD(..)(StateMatrix(), inplace=True)"}[case["start"]], case["pd"])
+        eq = np.array(sm.equilibrium, complex)
+        eq = np.broadcast_to(eq, (B,) + eq.shape[-2:])
+        want = np.zeros_like(eq)
+        want[:, (eq.shape[-2] - 1) // 2, 2] = pds
+        if np.abs(eq - want).max() > 1e-12:
+            return "the equilibrium array is no longer (0, 0, PD) in the zero state (max deviation %.3g) %s" % (np.abs(eq - want).max(), where)
+        d = dev(sm)
+        if o[0] in ("E", "SPOIL") and not leq(d, d_prev):
+            return "norm of the deviation from equilibrium grows under %s: %s -> %s %s" % (o[0], d_prev.tolist(), d.tolist(), where)
+        d_prev = d
+        norm = np.broadcast_to(np.ravel(np.asarray(sm.norm)), (B,))
+        st = np.asarray(sm.states)
+        f0 = np.broadcast_to(np.ravel(st[..., sm.nstate, 0]), (B,))
+        z0 = np.broadcast_to(np.ravel(st[..., sm.nstate, 2]), (B,))
+        for b in range(B):
+            rms, mean = ens[b][i]
+            if not close(norm[b], rms) or abs(f0[b] - mean) > 1e-9 * (1 + pds[b]):
+                return "norm %.12g / F0 %s differ from the isochromat ensemble (RMS %.12g, mean %s), batch entry %d %s" % (norm[b], f0[b], rms, mean, b, where)
+        if [x[0] for x in ops[:i + 1]] == ["T", "E"]:      # closed form
+            a, (tau, T1, T2) = np.deg2rad(ops[0][1]), ops[1][1:4]
+            zref = pds * (np.cos(a) * np.exp(-tau / T1) + 1 - np.exp(-tau / T1))
+            fref = pds * abs(np.sin(a)) * np.exp(-tau / T2)
+            if not (close(z0.real, zref) and close(np.abs(f0), fref) and np.abs(z0.imag).max() < 1e-12):
+                return "T, E: Z0 = %s, |F0| = %s but PD (cos a E1 + 1 - E1) = %s, PD sin a E2 = %s %s" % (z0.tolist(), np.abs(f0).tolist(), zref.tolist(), fref.tolist(), where)
+        a1, a2 = np.asarray(sm.states), np.asarray(ref.states)
+        if a1.shape != a2.shape or np.abs(a1 - a2).max() > 1e-10 * (1 + np.abs(a2).max()):
+            return "in-place result differs from the out-of-place run (shapes %s / %s%s) %s" % (
+                a1.shape, a2.shape, "" if a1.shape != a2.shape else ", max difference %.3g" % np.abs(a1 - a2).max(), where)
+    return None
+
+
 CHECKS = {"iso": check_iso, "contract": check_contract, "rms": check_rms, "signal": lambda c: check_signal(c)[0],
-          "normcorr": lambda c: check_normcorr(c), "ndcap": check_nd, "bfloat": check_nd, "ndbatch": check_nd, "kfloat": check_nd}
+          "normcorr": lambda c: check_normcorr(c), "ndcap": check_nd, "bfloat": check_nd, "ndbatch": check_nd, "kfloat": check_nd, "inplace": check_inplace}
 
 
 def run_stream(ctx, name, gen, n):
@@ -885,6 +973,7 @@ def run(ctx):
     nb += run_stream(ctx, "bfloat", gen_bfloat, 40 * n)
     nb += run_stream(ctx, "ndbatch", gen_ndbatch, 100 * n)
     nb += run_stream(ctx, "kfloat", gen_kfloat, 80 * n)
+    nb += run_stream(ctx, "inplace", gen_inplace, 150 * n)
     nb += norm_correspondence(ctx, 60 if quick else 2000)
     try:
         demo_T2_gt_2T1(ctx)
